@@ -1168,6 +1168,10 @@ def _count_entries(fn_node):
             for k in n.keywords:
                 if k.arg and k.arg.endswith("_count"):
                     yield k.arg, k.value
+        elif isinstance(n, ast.Assign):  # options["u_count"] = ...
+            for t in n.targets:
+                if isinstance(t, ast.Subscript) and isinstance(t.slice, ast.Constant) and isinstance(t.slice.value, str) and t.slice.value.endswith("_count"):
+                    yield t.slice.value, n.value
 
 
 def rule_span(ctx) -> RuleResult:
@@ -1196,6 +1200,28 @@ def rule_span(ctx) -> RuleResult:
                         b = b.value
                     if isinstance(b, ast.Name):
                         binds.setdefault(b.id, []).append(None if (b is not t or isinstance(n, ast.AugAssign)) else n.value)
+                    elif isinstance(t, (ast.Tuple, ast.List)) and all(isinstance(e, ast.Name) for e in t.elts):
+                        # a, b = (f(x) for x in (xa, xb)) / a, b = f(xa), f(xb): each name gets its own expression
+                        v, parts = n.value, None
+                        if isinstance(v, (ast.Tuple, ast.List)) and len(v.elts) == len(t.elts):
+                            parts = list(v.elts)
+                        elif isinstance(v, (ast.GeneratorExp, ast.ListComp)) and len(v.generators) == 1 and not v.generators[0].ifs \
+                                and isinstance(v.generators[0].target, ast.Name) and isinstance(v.generators[0].iter, (ast.Tuple, ast.List)) \
+                                and len(v.generators[0].iter.elts) == len(t.elts):
+                            var = v.generators[0].target.id
+
+                            def put(item, var=var, elt=v.elt):
+                                import copy as _copy
+
+                                class S(ast.NodeTransformer):
+                                    def visit_Name(self, x):
+                                        return _copy.deepcopy(item) if x.id == var and isinstance(x.ctx, ast.Load) else x
+
+                                return S().visit(_copy.deepcopy(elt))
+
+                            parts = [put(item) for item in v.generators[0].iter.elts]
+                        for e, part in zip(t.elts, parts or [None] * len(t.elts)):
+                            binds.setdefault(e.id, []).append(part)
 
         def bare_projection(e, depth=0):
             """e is np.any(<x>, axis=..) / <x>.any(axis=..) itself, possibly through plain local names"""
